@@ -391,7 +391,7 @@ def main(argv=None):
         print("not reproduced")
         return 0
     quick = a.tier == "quick"
-    ev = common.Evidence(PROP, a.tier, a.seed, "exploration", "pairs / triples of corpus scripts on disjoint subtrees (private prefixes of one base directory with same or different users, or different users' base directories with identical textual paths), each run solo and then together under seeded interleavings (latencies, backend delays, start offsets, task-hash salt), optionally with session 0 cut / faulted; non-trivial = the sessions' network events actually alternated; distinct = distinct run digests; distinct interleavings are counted by signature (order of network events projected on session ids)")
+    ev = common.Evidence(PROP, a.tier, a.seed, "exploration", "pairs / triples of corpus scripts on disjoint subtrees (private prefixes of one base directory with same or different users, or different users' base directories with identical textual paths), each run solo and then together under seeded interleavings (latencies, backend delays, start offsets, task-hash salt), optionally with session 0 cut / faulted; non-trivial = the sessions' network events actually alternated; distinct = distinct run digests; distinct interleavings are counted by signature (order of network events projected on session ids) Every third case is a lock-step run: 2..3 raw sessions in different states write their k-th line in the same event-loop step.")
     rep = common.Reporter(PROP, ev)
     deadline = time.time() + (a.budget or (75 if quick else 1500))
     n = 1500 if quick else 200000
